@@ -29,7 +29,7 @@ RULE = ("util level (autoarray.util.transformer / inversion_interferometer_util 
         "exact trig table) or on a 1/16 lattice (generic phases); zero and repeated baselines; integer / quarter valued images, "
         "signed mapping matrices with zeros, arbitrary integer preload tables incl. 0 x K tables, complex visibilities, complex "
         "positive noise maps with real/imag parts in {1/2,1,2,4}; image_via_jit_from with n_pixels <, =, > grid rows. "
-        "Class level: Mask2D of shape up to 5x5 (non-square, 0..16 unmasked pixels incl. outer ring, fully masked, single pixel), "
+        "Budgets: quick 40 util batches (8 ops each) + 50 geometries; thorough 400 + 500. Class level: Mask2D of shape up to 5x5 (non-square, 0..16 unmasked pixels incl. outer ring, fully masked, single pixel), "
         "pixel scales (sy,sx) in {1/4..3} independently, origins k/4, baselines up to 2e5 wavelengths (phases of several turns), "
         "TransformerDFT(preload on/off).visibilities_from / image_from / transform_mapping_matrix with slim- and native-stored "
         "images, InversionInterferometerMapping(DatasetInterface(Visibilities, VisibilitiesNoiseMap, TransformerDFT), 1-3 linear "
@@ -137,7 +137,7 @@ def ruv_class(rng, K):
 def npix_of(m): return sum(1 for r in m for b in r if not b)
 
 def gen_inputs(tier, rng):
-    n = 1500 if tier == "thorough" else 40
+    n = 400 if tier == "thorough" else 40
     util_ops = ["preload", "vispre", "vis", "image", "tmmpre", "tmm", "data", "recon"]
     for i in range(n):
         lattice = "quarter" if i % 2 else "sixteenth"
@@ -167,7 +167,7 @@ def gen_inputs(tier, rng):
             elif op == "recon":
                 d = {"op": op, "P": P, "TM": [[Sv(c) for c in rcv(rng, P)] for _ in range(K)], "s": Sv(rvals(rng, P))}
             yield d
-    m = 2000 if tier == "thorough" else 50
+    m = 500 if tier == "thorough" else 50
     for i in range(m):
         g = rgeom(rng); npix = npix_of(g["m"])
         K = rng.choice([0, 1, 2, 3, 4, 6, 8]) if i % 7 == 0 else rng.choice([1, 2, 3, 4, 6, 8])
